@@ -4,6 +4,7 @@
 //! writes an ndjson trace that a `*_Trace.tla` module validates; no
 //! interpretation of observed state happens here.
 mod conc;
+mod cuf;
 mod session;
 mod table;
 mod uf;
@@ -21,6 +22,7 @@ fn main() {
         "session" => session::main(rest),
         "table" => table::main(rest),
         "conc" => conc::main(rest),
+        "cuf" => cuf::main(rest),
         other => Err(format!("unknown driver {other}")),
     };
     if let Err(e) = r {
